@@ -16,6 +16,7 @@ here at full strength and have an `…_old_code_fails` theorem in `Witness.lean`
 import CaddyModel.C06.GlobLemmas
 import CaddyModel.C06.SiteLemmas
 import CaddyModel.C06.ProvLemmas
+import CaddyModel.C06.ElemLemmas
 import CaddyModel.C06.Witness
 import CaddyModel.Gen.Consts
 
@@ -456,6 +457,36 @@ theorem matchPath_substring_rule (mid p e : Bytes) (hl : lower mid = mid) (hp : 
     rw [List.cons_append, lower_cons, lower_append, hl]; rfl
   rw [this, patMatches_substring _ _ _ hp h1 h2, containsSub_iff]; rfl
 
+/-! ## glob semantics of the single-character operators (`c`, `\\c`, `?`, `[…]`, `[^…]`) -/
+
+/-- **`matchChunk` is parse-then-match**: a star-free chunk denotes a list of elements (literal,
+    `?`, character class), each consuming exactly one byte; a malformed chunk is `ErrBadPattern`
+    whatever the name -/
+theorem matchChunk_is_elementwise (chunk s : Bytes) :
+    matchChunk chunk.length chunk s false = chunkSpec (parseChunk chunk.length chunk) s false :=
+  matchChunk_eq_spec _ _ _ _
+
+/-- **a pattern without `*` matches exactly the names of its own length whose bytes are accepted
+    element by element** (`?` = any byte but `/`, a class = its ranges, negated or not, `\\c` = `c`);
+    a malformed pattern matches nothing -/
+theorem globMatch_starfree_rule (pat s : Bytes) (es : List Elem) (hne : pat ≠ [])
+    (hstar : pat.head? ≠ some cStar) (hchunk : scanLen false pat = pat.length)
+    (hparse : parseChunk pat.length pat = .ok es) :
+    globMatch pat s = .yes ↔ ElemsAccept es s := by
+  rw [globMatch_single_chunk pat s hne hstar hchunk, hparse, ← elemsMatch_iff]
+  simp only [ofBool]
+  cases h : (elemsMatch es s == some []) with
+  | true => simp at h; simp [h]
+  | false =>
+    have : ¬ elemsMatch es s = some [] := by simpa using h
+    simp [this]
+
+theorem globMatch_starfree_bad (pat s : Bytes) (hne : pat ≠ [])
+    (hstar : pat.head? ≠ some cStar) (hchunk : scanLen false pat = pat.length)
+    (hparse : parseChunk pat.length pat = .bad) :
+    globMatch pat s = .bad := by
+  rw [globMatch_single_chunk pat s hne hstar hchunk, hparse]
+
 /-! ## the recursion budgets of the model are never exhausted -/
 
 /-- `path.Match` terminates within its budget (one unit per chunk) -/
@@ -635,5 +666,10 @@ example : provisionHostI exIdna 2 [[83, 46, 99, 111, 109], [98, 195, 188, 99, 10
 
 example : notCase 2 [[69, 120, 97, 109, 112, 108, 101, 46, 99, 111, 109], [98, 46, 116, 101, 115, 116], [42, 46, 99, 46, 116, 101, 115, 116]] [[47, 97, 112, 105, 47, 42]] [120, 46, 121] [47, 111, 116, 104, 101, 114] [47, 111, 116, 104, 101, 114] = .res true := by decide
 example : notCase 2 [[69, 120, 97, 109, 112, 108, 101, 46, 99, 111, 109], [98, 46, 116, 101, 115, 116], [42, 46, 99, 46, 116, 101, 115, 116]] [[47, 97, 112, 105, 47, 42]] [120, 46, 121] [47, 65, 80, 73, 47, 47, 118, 49, 47, 46, 47, 120, 47, 46, 46, 47, 117, 115, 101, 114, 115] [47, 65, 80, 73, 47, 47, 118, 49, 47, 46, 47, 120, 47, 46, 46, 47, 117, 115, 101, 114, 115] = .res false := by decide
+
+example : parseChunk [47, 102, 63, 91, 97, 45, 99, 120, 93, 91, 94, 48, 45, 57, 93, 92, 42].length [47, 102, 63, 91, 97, 45, 99, 120, 93, 91, 94, 48, 45, 57, 93, 92, 42] = .ok [.lit 47, .lit 102, .any, .cls false [(97, 99), (120, 120)], .cls true [(48, 57)], .lit 42] := by decide
+example : scanLen false [47, 102, 63, 91, 97, 45, 99, 120, 93, 91, 94, 48, 45, 57, 93, 92, 42] = [47, 102, 63, 91, 97, 45, 99, 120, 93, 91, 94, 48, 45, 57, 93, 92, 42].length ∧ [47, 102, 63, 91, 97, 45, 99, 120, 93, 91, 94, 48, 45, 57, 93, 92, 42].head? ≠ some cStar := by decide
+example : globMatch [47, 102, 63, 91, 97, 45, 99, 120, 93, 91, 94, 48, 45, 57, 93, 92, 42] [47, 102, 111, 98, 122, 42] = .yes ∧ globMatch [47, 102, 63, 91, 97, 45, 99, 120, 93, 91, 94, 48, 45, 57, 93, 92, 42] [47, 102, 47, 98, 122, 42] = .no := by decide
+example : parseChunk [47, 97, 91, 98, 45].length [47, 97, 91, 98, 45] = .bad := by decide
 
 end CaddyModel.C06
